@@ -6,6 +6,7 @@ from ..isa import Isa
 from ..token import Token, bit_range, Endianness
 from ..generic_instructions import ArtificialInstruction
 from ..generic_instructions import RegisterUseDef, Global
+from ...utils.bitfun import wrap_negative
 from .registers import MicroBlazeRegister, R0
 from . import registers
 
@@ -292,7 +293,7 @@ class PcRelRelocation64(Relocation):
     field = "imm"
 
     def calc(self, sym_value, reloc_value):
-        return sym_value - (reloc_value + 4)
+        return wrap_negative(sym_value - (reloc_value + 4), 32)
 
 
 @isa.register_relocation
